@@ -70,9 +70,10 @@ bool run_unpad(const UnpadCase &c, std::string &msg) {
 void explore_pad(Ctx &ctx) {
     uint64_t idx = 0;
     std::vector<size_t> bss;
-    for (size_t b = 0; b <= 130; b++) bss.push_back(b);
+    for (size_t b = 0; b <= (ctx.thorough() ? 300u : 130u); b++) bss.push_back(b);
     for (size_t b : { 255u, 256u, 257u, 1000u, 4096u, 65536u, 1u << 20 }) bss.push_back(b);
-    size_t maxun = ctx.thorough() ? 520 : 320;
+    if (ctx.thorough()) for (size_t b : { 511u, 512u, 513u, 1023u, 1024u, 1025u, 4095u, 4097u, 65535u, 65537u, (1u << 20) - 1, (1u << 20) + 1, 1u << 22 }) bss.push_back(b);
+    size_t maxun = ctx.thorough() ? 1100 : 320;
     for (size_t bs : bss)
         for (size_t un = 0; un <= maxun; un++) {
             if (!ctx.mine(idx++)) continue;
